@@ -597,6 +597,9 @@ MUTANTS = [
            expect_rule="isolation/swallowing-with-inside-loop"),
     Mutant("trigger-registered-with-another-event", BASE, "                self._eventTriggers[eventType].addTrigger(\n", "                self._eventTriggers[phase].addTrigger(\n",
            expect_rule="reactor/registers-trigger"),
+    Mutant("late-phase-helper-pops-from-the-tail", BASE, "        for phase in self.during, self.after:\n            while phase:\n                callable, args, kwargs = phase.pop(0)\n                with _systemEventHandler:\n                    callable(*args, **kwargs)\n", "        first, then = self.during, self.after\n        self._drainPhase(first)\n        self._drainPhase(then)\n\n    def _drainPhase(self, pending):\n        while pending:\n            callable, args, kwargs = pending.pop()\n            with _systemEventHandler:\n                callable(*args, **kwargs)\n", expect_rule="order/consumed-from-head"),
+    Mutant("comprehension-drops-fired-deferreds", BASE, "        beforeResults: List[Deferred[object]] = []\n        while self.before:\n            callable, args, kwargs = self.before.pop(0)\n            self.finishedBefore.append((callable, args, kwargs))\n            result = None\n            with _systemEventHandler:\n                result = callable(*args, **kwargs)\n            if isinstance(result, Deferred):\n                beforeResults.append(result)\n        DeferredList(beforeResults).addCallback(self._continueFiring)\n", "        waitFor = [outcome for outcome in self._runBeforePhase() if isinstance(outcome, Deferred) and not outcome.called]\n        DeferredList(waitFor).addCallback(self._continueFiring)\n\n    def _runBeforePhase(self):\n        while self.before:\n            callable, args, kwargs = self.before.pop(0)\n            self.finishedBefore.append((callable, args, kwargs))\n            outcome = None\n            with _systemEventHandler:\n                outcome = callable(*args, **kwargs)\n            yield outcome\n",
+           expect_rule="phase/results-collected"),
     Mutant("before-removal-ignored-while-firing", BASE, "        else:\n            self.removeTrigger_BASE(handle)\n\n    def fireEvent",
            "        else:\n            pass\n\n    def fireEvent", expect_rule="remove/really-removes"),
     Mutant("remover-uses-wrong-field-order", BASE, "            getattr(self, phase).remove((callable, args, kwargs))\n", "            getattr(self, phase).remove((callable, kwargs, args))\n",
@@ -645,4 +648,7 @@ SILENT = [
                  (BASE, "        if event is not None:\n            event.fireEvent()\n", "        if event is None:\n            return\n        event.fireEvent()\n")]),
     Silent("call-helper-with-catch-all-try", BASE, "                with _systemEventHandler:\n                    callable(*args, **kwargs)\n",
            "                try:\n                    callable(*args, **kwargs)\n                except BaseException:\n                    _log.failure(\"While calling system event trigger handler\")\n"),
+    # --- third round: the draining loops moved into a generator consumed by a comprehension and into a helper applied to captured lists
+    Silent("before-phase-generator-and-late-phase-helper", BASE, "        beforeResults: List[Deferred[object]] = []\n        while self.before:\n            callable, args, kwargs = self.before.pop(0)\n            self.finishedBefore.append((callable, args, kwargs))\n            result = None\n            with _systemEventHandler:\n                result = callable(*args, **kwargs)\n            if isinstance(result, Deferred):\n                beforeResults.append(result)\n        DeferredList(beforeResults).addCallback(self._continueFiring)\n", "        waitFor = [outcome for outcome in self._runBeforePhase() if isinstance(outcome, Deferred)]\n        DeferredList(waitFor).addCallback(self._continueFiring)\n\n    def _runBeforePhase(self):\n        while self.before:\n            callable, args, kwargs = self.before.pop(0)\n            self.finishedBefore.append((callable, args, kwargs))\n            outcome = None\n            with _systemEventHandler:\n                outcome = callable(*args, **kwargs)\n            yield outcome\n",
+           more=[(BASE, "        for phase in self.during, self.after:\n            while phase:\n                callable, args, kwargs = phase.pop(0)\n                with _systemEventHandler:\n                    callable(*args, **kwargs)\n", "        first, then = self.during, self.after\n        self._drainPhase(first)\n        self._drainPhase(then)\n\n    def _drainPhase(self, pending):\n        while pending:\n            callable, args, kwargs = pending.pop(0)\n            with _systemEventHandler:\n                callable(*args, **kwargs)\n")]),
 ]
